@@ -48,6 +48,26 @@ pub fn check_decode(data: &[u8]) -> Result<usize, Fail> {
         "into_inner() starts at {} with {} bytes, expected the undecoded suffix at {exp_rest} (input {})",
         rest.as_ptr() as usize - base, rest.len(), Hex(data.to_vec()).dbg()
     );
+    // the other Iterator entry points must agree with next(): nth / skip / count / last
+    for k in [0usize, 1, n.saturating_sub(1), n, n + 3] {
+        let mut it2 = NVIter::new(data);
+        let got = it2.nth(k);
+        match (got, exp.get(k)) {
+            (Some((nm, vl)), Some(&((ns, ne), (vs, ve)))) => {
+                vensure!(nm.as_ptr() as usize - base == ns && nm.len() == ne - ns && vl.as_ptr() as usize - base == vs && vl.len() == ve - vs, "c16-nth", "nth({k}) yields a different pair than the {k}-th next()");
+                let after = it2.next().map(|(a, _)| a.as_ptr() as usize - base);
+                vensure!(after == exp.get(k + 1).map(|p| p.0 .0), "c16-nth", "next() after nth({k}) does not continue with pair {}", k + 1);
+            },
+            (None, None) => {
+                vensure!(it2.next().is_none(), "c16-nth", "next() after an out-of-range nth({k}) yields a pair");
+                let rest = it2.into_inner();
+                vensure!(rest.as_ptr() as usize - base == exp_rest && rest.len() == data.len() - exp_rest, "c16-nth", "after an out-of-range nth({k}) into_inner() is not the undecoded suffix (starts at {}, expected {exp_rest})", rest.as_ptr() as usize - base);
+            },
+            (g, e) => vfail!("c16-nth", "nth({k}) = {:?}, but the input has {} pairs (reference pair {k}: {e:?})", g.map(|(a, b)| (a.len(), b.len())), exp.len()),
+        }
+    }
+    vensure!(NVIter::new(data).count() == n, "c16-nth", "count() disagrees with the number of pairs yielded by next()");
+    vensure!(NVIter::new(data).skip(n.saturating_sub(1)).last().map(|(a, _)| a.as_ptr() as usize - base) == exp.last().map(|p| p.0 .0), "c16-nth", "skip(n-1).last() is not the last pair");
     vensure!(hint.0 <= n, "c16-size-hint", "size_hint lower bound {} exceeds pair count {n}", hint.0);
     if let Some(up) = hint.1 {
         vensure!(n <= up, "c16-size-hint", "{n} pairs exceed size_hint upper bound {up} (input len {})", data.len());
@@ -270,10 +290,13 @@ struct Oversize {
     value_len: u64,
 }
 
-struct CountSink(u64);
+struct CountSink(u64, Vec<u8>);
 impl std::io::Write for CountSink {
     fn write(&mut self, b: &[u8]) -> std::io::Result<usize> {
         self.0 += b.len() as u64;
+        // keep the first bytes (the two length prefixes)
+        let room = 8usize.saturating_sub(self.1.len());
+        self.1.extend_from_slice(&b[..b.len().min(room)]);
         Ok(b.len())
     }
     fn flush(&mut self) -> std::io::Result<()> {
@@ -285,12 +308,16 @@ fn test_oversize(c: &Oversize) -> TestResult {
     let z = zeros();
     let (n, v) = (&z[..c.name_len as usize], &z[..c.value_len as usize]);
     let legal = c.name_len < (1 << 31) && c.value_len < (1 << 31);
-    let mut sink = CountSink(0);
+    let mut sink = CountSink(0, Vec::new());
     match nv::write((n, v), &mut sink) {
         Ok(w) => {
             vensure!(legal, "c16-oversize-accepted", "write accepted a pair with lengths ({}, {})", c.name_len, c.value_len);
             let exp = c.name_len + c.value_len + if c.name_len < 128 { 1 } else { 4 } + if c.value_len < 128 { 1 } else { 4 };
             vensure!(w as u64 == exp && sink.0 == exp, "c16-write-count", "write returned {w}, sink received {}, expected {exp}", sink.0);
+            let mut head = Vec::new();
+            wire::enc_varint(c.name_len as u32, &mut head);
+            wire::enc_varint(c.value_len as u32, &mut head);
+            vensure!(sink.1[..head.len().min(sink.1.len())] == head[..head.len().min(sink.1.len())] && sink.1.len() >= head.len().min(exp as usize), "c16-encoding", "length prefixes of a ({}, {})-byte pair encoded as {:02x?}, expected {head:02x?}", c.name_len, c.value_len, sink.1);
         },
         Err(e) => {
             vensure!(!legal, "c16-write-error", "write rejected legal lengths ({}, {}): {e}", c.name_len, c.value_len);
@@ -304,16 +331,16 @@ pub fn property() -> Property {
     let roundtrip = prop_sub(
         "roundtrip",
         "generated lists of 0..8 pairs, lengths biased to 0,1,126..130,65534..65536,70000+, arbitrary bytes, output vector pre-filled; oracle: independent encoder (byte-exact) and decoders; non-trivial = >=2 pairs with a four-byte length",
-        200_000,
-        4_000_000,
+        600_000,
+        10_000_000,
         |_| boxed((proptest::collection::vec((blob_any(), blob_any()), 0..8), 0u16..40).prop_map(|(pairs, prefill)| PairList { pairs, prefill })),
         test_roundtrip,
     );
     let hostile = prop_sub(
         "hostile_bytes",
         "byte strings assembled from valid pairs (either length form), pairs announcing more than remains (up to 2^31-1), raw boundary bytes, cut anywhere; oracle: independent decoder, pointer containment, fused, into_inner = undecoded suffix, & / &mut agree, prefix-monotone over every prefix (<=400 bytes) or 200 sampled prefixes; non-trivial = >=1 pair decoded and decoding stops at an incomplete pair",
-        200_000,
-        4_000_000,
+        600_000,
+        10_000_000,
         |_| boxed((proptest::collection::vec(seg(), 0..7), prop_oneof![2 => Just(0xffffu16), 1 => any::<u16>()]).prop_map(|(segs, keep)| Hostile { segs, keep })),
         test_hostile,
     );
@@ -345,7 +372,7 @@ pub fn property() -> Property {
     });
     let oversize: Box<dyn Sub> = Box::new(EnumSub::<Oversize> {
         name: "oversize_write",
-        rule: "name/value lengths at 2^31-1 (largest legal) and 2^31, 2^31+1 (must be InvalidInput) using lazily mapped zero pages and a counting sink",
+        rule: "name/value lengths at 2^16, 2^24-1, 2^24, 2^24+7, 2^28, 2^30, 2^31-1 (legal: exact byte count and exact length prefixes) and 2^31, 2^31+1 (must be InvalidInput) using lazily mapped zero pages and a counting sink that keeps the prefixes",
         exhaustive: Box::new(|_| true),
         guard_each: true,
         test: Box::new(test_oversize),
@@ -354,7 +381,7 @@ pub fn property() -> Property {
                 return;
             }
             let m = 1u64 << 31;
-            for (a, b) in [(m - 1, 0), (0, m - 1), (m, 0), (0, m), (m + 1, 5), (5, m + 1), (m - 1, m - 1), (m, m), (127, 128), (128, 127)] {
+            for (a, b) in [(m - 1, 0), (0, m - 1), (m, 0), (0, m), (m + 1, 5), (5, m + 1), (m - 1, m - 1), (m, m), (127, 128), (128, 127), (65535, 65536), (1 << 16, 3), ((1 << 24) - 1, 1), (1 << 24, 0), (0, (1 << 24) + 7), ((1 << 24) + 7, (1 << 24) - 1), (1 << 28, 1 << 20), (0x0102_0304, 0x7ffe_fdfc), (1 << 30, 1 << 30)] {
                 if !sink.check(Oversize { name_len: a, value_len: b }) {
                     return;
                 }
